@@ -302,6 +302,7 @@ def run(chk, ctx):
     # unit accounting (capacity - depth) is only right if the depth is the number of stored checkpoints
     shared.rule_track(chk, "C03.PAIR", [r for r in runs if r.owner != shared.CONVERTER])
     shared.rule_config(chk, "C03.CONFIG", ctx, mode="le")
+    shared.rule_declared(chk, "C03.DECLARED", ctx)
     guards(chk, ctx, runs)
     slice_rules(chk, ctx)
     kind_rules(chk, runs)
